@@ -179,8 +179,23 @@ def to_coq(c):
         exp = "(Some (%s, %s))" % (B(o.get("out")), Z(o["left"])) if o["ok"] else "None"
         return "CSessCheck %s %d %s %s %s" % (mtab(c.get("macs")), c["key"], Z(c["now"]), B(c.get("tok")), exp)
     if op == "gatecheck":
-        return "CGate %s %d %s %s %s" % (mtab(c.get("macs")), c["key"], Z(c["now"]), B(c.get("tok")),
-                                         OB(o["ok"], o.get("out")))
+        exp = "(Some (%s, %s))" % (B(o.get("out")), bl(o.get("refresh"))) if o["ok"] else "None"
+        return "CGate %s %d %s %s %s %s" % (mtab(c.get("macs")), c["key"], Z(c["maxttl"]), Z(c["now"]),
+                                            B(c.get("tok")), exp)
+    if op == "chalcheck":
+        ct = "(Some %s)" % Z(c["t0"]) if c.get("t0") is not None else "None"
+        return "CChal %s %d %s %s %s %s %d" % (mtab(c.get("macs")), c["key"], Z(c["window"]), Z(c["now"]),
+                                              B(c.get("tok")), ct, o["err"])
+    if op == "coresign":
+        privs = "[" + "; ".join("(%s, %s)" % (B(p["id"]), bl(p["parse"])) for p in c.get("privs") or []) + "]"
+        card = "[" + "; ".join(pkey(k) for k in c.get("card") or []) + "]"
+        return "CCoreSign %s %s %s %s %d %s" % (privs, card, B(c.get("user")), Z(c["now"]), o["err"], B(o.get("out")))
+    if op == "exchange":
+        card = "[" + "; ".join(pkey(k) for k in c.get("card") or []) + "]"
+        return "CExchange %s %s %s %s %s %s %s %s %s %s %d %s %d %s %s" % (
+            card, B(c.get("data")), B(c.get("host")), B(c.get("user")), Z(c["now"]), B(c.get("tok")),
+            ohdr(c.get("hp")), oclm(c.get("cp")), Z(c["ttl"]), mtab(c.get("macs")), c["key"], Z(c["maxttl"]),
+            o["err"], B(o.get("out")), Z(o.get("expires", 0)))
     if op == "tsnew":
         return "CTsNew %s %d %s %s" % (mtab(c.get("macs")), c["key"], Z(c["t0"]), B(o.get("out")))
     if op == "tscheck":
@@ -319,6 +334,31 @@ class Oracle:
         if op == "pass":
             r = pass_oracle(c)
             return ("passcode:" + r[0], r[1]) if r else None
+        if op == "coresign":
+            if not o["ok"]:
+                return None
+            now, kid, req = int(c["now"]), o.get("out", ""), c.get("user", "")
+            keys = [k for k in c.get("card") or [] if k["id"] == kid]
+            good = any(k["type"] == "7373682d727361" and (int(k["nvb"]) <= 0 or now >= int(k["nvb"]) * NS)
+                       and now <= int(k["nva"]) * NS for k in keys[:1])
+            if not good or (req and kid != req) or not any(p["id"] == kid for p in c.get("privs") or []):
+                return ("coresign:signed-with-unusable-key",
+                        "simpleCore.Sign signed with key %r (asked for %r) which is not a registered, valid RSA key then"
+                        % (txt(kid), txt(req)))
+            return None
+        if op == "exchange" and o["ok"]:
+            cp, now = c.get("cp"), int(c["now"])
+            if not cp or not jwt_time_ok(cp, now):
+                return "exchange:accepted-outside-time", "a session was issued for an access token outside its time window"
+            for want, got in ((c.get("data", ""), cp["iss"]), (c.get("host", ""), cp["aud"]), (c.get("user", ""), cp["sub"])):
+                if want and want != got:
+                    return "exchange:accepted-foreign-claims", "a session was issued for another issuer/audience/user"
+            if int(c["ttl"]) <= 0:
+                return "exchange:nonpositive-ttl", "a session was issued for a non-positive lifetime"
+            if int(o["expires"]) - now > max(int(c["maxttl"]), 0) or int(o["expires"]) - now > int(c["ttl"]):
+                return "exchange:lifetime-not-capped", "the session outlives the requested or the maximum lifetime"
+            if not o.get("payok"):
+                return "exchange:session-not-usable-as-issued", "the session issued is not accepted for that user until its expiry"
         if op == "sessnew":
             exp, t0, mx = int(o["expires"]), int(c["t0"]), int(c["maxttl"])
             if exp > t0 + mx:
@@ -366,7 +406,19 @@ class Oracle:
                 return fam + ":genuine-rejected", "an issued token was rejected"
             if o.get("out", "") != info.get("payload", ""):
                 return fam + ":wrong-payload", "verification returned a payload other than the signed one"
+        elif op == "chalcheck":
+            t0, w = int(c["t0"]), int(c["window"])
+            want = t0 <= now <= t0 + w
+            if accepted != want:
+                return ("challenge:%s" % ("accepted-outside-window" if accepted else "genuine-rejected"),
+                        "challenge of %d checked at %d with window %d gave %s" % (t0, now, w, accepted))
+        elif op == "exchange":
+            pass
         elif op in ("sesscheck", "gatecheck"):
+            if op == "gatecheck" and accepted and int(c["maxttl"]) > 0 and \
+                    bool(o.get("refresh")) != (info["expires"] - now < int(c["maxttl"]) // 5):
+                return "authgate:wrong-refresh-advice", "NeedRefresh=%s with %d ns left of %s" % (
+                    o.get("refresh"), info["expires"] - now, c["maxttl"])
             want = now < info["expires"]
             if accepted and not want:
                 return "session:accepted-at-or-after-expiry", "session accepted %d ns after its expiry" % (now - info["expires"])
